@@ -269,3 +269,28 @@ impl<T: Config> SpectatorSession<T> {
         }
     }
 }
+
+/// Read-only accessors for verification (feature `verif-hooks`).
+#[cfg(feature = "verif-hooks")]
+impl<T: Config> SpectatorSession<T> {
+    /// Sizes of all internal buffers.
+    pub fn verif_buffer_sizes(&self) -> crate::verif::BufferSizes {
+        crate::verif::BufferSizes {
+            event_queue: self.event_queue.len(),
+            endpoints: vec![(0, self.host.verif_sizes())],
+            ..Default::default()
+        }
+    }
+
+    /// `(disconnected, last_frame)` the host last reported for a player handle.
+    pub fn verif_host_connect_status(&self, player_handle: usize) -> Option<(bool, Frame)> {
+        self.host_connect_status
+            .get(player_handle)
+            .map(|s| (s.disconnected, s.last_frame))
+    }
+
+    /// The newest frame received from the host.
+    pub fn verif_last_recv_frame(&self) -> Frame {
+        self.last_recv_frame
+    }
+}
